@@ -65,6 +65,22 @@ Theorem C01_reloc_blocks : forall data off b bs, chainb data off (b :: bs) = tru
 Proof. exact RelocsProofs.chainb_inv. Qed.
 Print Assumptions C01_reloc_blocks.
 
+(* 5. directory modules with their own size/alignment checks before casts (restated from their properties) *)
+From PV.Model Require Resources Dirs.
+From PV.Proofs Require ResourcesProofs DirsProofs.
+(* resources: the entry array handed out by from_raw_parts in Directory::entries lies inside the section and is aligned (after F4) *)
+Theorem C01_resource_entries : forall s off o, Resources.dir_try_from s off = Ok o -> Resources.entries_safe s o = true.
+Proof. exact ResourcesProofs.dir_try_from_entries_safe. Qed.
+Print Assumptions C01_resource_entries.
+(* exception: UNWIND_INFO and its code array - 4 + 2*CountOfCodes bytes - lie inside the slice they were read from *)
+Theorem C01_unwind_info : forall v f u, Dirs.unwind_info v f = Ok u ->
+  exists b, slice v (Dirs.rf_unwind f) 4 1 = Ok b /\ r_off u = r_off b /\
+    r_len u = 4 + 2 * v_get v (r_off b + 2) /\ r_len u <= r_len b /\
+    Dirs.uw_count (v_get v) u = v_get v (r_off b + 2) /\
+    Dirs.uw_codes (v_get v) u = {| r_off := r_off b + 4; r_len := 2 * v_get v (r_off b + 2) |}.
+Proof. exact DirsProofs.unwind_info_shape. Qed.
+Print Assumptions C01_unwind_info.
+
 (* defects repaired in /repo, as theorems about the code as it stood *)
 (* F3: a file-view slice tested the alignment of base+rva but returned base+PointerToRawData+(rva-VA) *)
 Theorem C01_F3_slice_file_orig_refuted :
